@@ -104,6 +104,19 @@ func mapNonNil(v ssa.Value, seen map[ssa.Value]bool) bool {
 		}
 	case *ssa.ChangeType:
 		return mapNonNil(x.X, seen)
+	case *ssa.Lookup:
+		// m["k"] of a map literal built in this function whose entry "k" is itself a made map
+		if mk, ok := x.X.(*ssa.MakeMap); ok && !x.CommaOk {
+			if key, ok := ConstString(x.Index); ok {
+				for _, r := range *mk.Referrers() {
+					if mu, ok := r.(*ssa.MapUpdate); ok && mu.Map == ssa.Value(mk) {
+						if k2, ok := ConstString(mu.Key); ok && k2 == key && InstrDominates(mu, x) {
+							return mapNonNil(mu.Value, seen)
+						}
+					}
+				}
+			}
+		}
 	case *ssa.Call:
 		// documented: structs.Map always returns a freshly made map
 		if CalleeName(x) == "github.com/fatih/structs.Map" || CalleeName(x) == "(*Havoc/pkg/agent.Agent).ToMap" {
